@@ -118,14 +118,16 @@ func parseShown(out string) (pairs []shown, runs int) {
 		}
 		runs++
 		sh := shown{Number: v}
-		if m := labelRe.FindString(string(flat[:i])); m != "" {
-			sh.Label = m
-		}
 		j := i
 		for j > 0 && under[j-1] && superVal(flat[j-1]) < 0 {
 			j--
 		}
 		sh.Underline = string(flat[j:i])
+		// the label must be part of the link text itself (which is underlined): plain text
+		// that merely precedes the number of an empty link is not its label
+		if m := labelRe.FindString(string(flat[:i])); m != "" && strings.HasSuffix(sh.Underline, m) {
+			sh.Label = m
+		}
 		pairs = append(pairs, sh)
 	}
 	return
@@ -179,10 +181,16 @@ func buildHost(c caseDesc) (selector, []string, []string, error) {
 		}
 		bodyTargets = expectedTargets(buf.String())
 	case "text/gemini":
+		pre := false
 		for _, line := range strings.Split(c.Doc, "\n") {
-			// independent reading of the gemtext link line: "=>" optional blanks URL [blanks label]
+			// independent reading of the gemtext link line: "=>" optional blanks URL [blanks label],
+			// outside preformatted text (toggled by lines starting with ```)
 			if strings.HasPrefix(line, "```") {
-				break // the grammar never puts links after a preformat toggle
+				pre = !pre
+				continue
+			}
+			if pre {
+				continue
 			}
 			if strings.HasPrefix(line, "=>") {
 				f := strings.Fields(strings.TrimPrefix(line, "=>"))
